@@ -4,7 +4,10 @@ package corebgp
 
 import (
 	"errors"
+	"fmt"
+	"io"
 	"net/netip"
+	"sync"
 	"time"
 )
 
@@ -252,4 +255,124 @@ func Verif_TV_codec_vectors() {
 	verifObserve("hdr", prependHeader([]byte{1, 2, 3}, updateMessageType))
 	var ne *notificationError
 	verifObserve("as", errors.As(newNotificationError(&Notification{Code: 2}, true), &ne))
+}
+
+// Semantics of the engine's goroutine / channel / select / sync / timer / defer implementation against
+// the real runtime, on programs whose observations do not depend on the schedule.
+func Verif_TV_concurrency_semantics() {
+	// unbuffered ping-pong
+	ping, pong := make(chan int), make(chan int)
+	go func() {
+		for v := range ping {
+			pong <- v * 2
+		}
+		close(pong)
+	}()
+	sum := 0
+	for i := 1; i <= 5; i++ {
+		ping <- i
+		sum += <-pong
+	}
+	close(ping)
+	_, ok := <-pong
+	verifObserve("pingpong.sum", sum)
+	verifObserve("pingpong.closed", !ok)
+	// buffered FIFO, len/cap, receive from closed
+	b := make(chan int, 3)
+	b <- 7
+	b <- 8
+	verifObserve("buf.len", len(b))
+	verifObserve("buf.cap", cap(b))
+	close(b)
+	x, ok1 := <-b
+	y, ok2 := <-b
+	z, ok3 := <-b
+	verifObserve("buf.x", x)
+	verifObserve("buf.y", y)
+	verifObserve("buf.z", z)
+	verifObserve("buf.oks", ok1 && ok2 && !ok3)
+	// select: default when nothing is ready, nil channel never ready, closed channel always ready
+	var nilch chan int
+	empty := make(chan int)
+	r := 0
+	select {
+	case <-nilch:
+		r = 1
+	case <-empty:
+		r = 2
+	default:
+		r = 3
+	}
+	verifObserve("select.default", r)
+	done := make(chan struct{})
+	close(done)
+	select {
+	case <-nilch:
+		r = 1
+	case <-done:
+		r = 2
+	}
+	verifObserve("select.closed", r)
+	select {
+	case empty2 := <-make(chan int, 1):
+		r = empty2
+	case b2 := <-func() chan int { c := make(chan int, 1); c <- 42; return c }():
+		r = b2
+	}
+	verifObserve("select.buffered", r)
+	// sync.Once / WaitGroup / Mutex
+	var once sync.Once
+	var wg sync.WaitGroup
+	var mu sync.Mutex
+	ran, counter := 0, 0
+	for g := 0; g < 4; g++ {
+		wg.Add(1)
+		go func() {
+			defer wg.Done()
+			once.Do(func() { ran++ })
+			for k := 0; k < 5; k++ {
+				mu.Lock()
+				counter++
+				mu.Unlock()
+			}
+		}()
+	}
+	wg.Wait()
+	verifObserve("once.ran", ran)
+	verifObserve("mutex.counter", counter)
+	// timers (pre-1.23 channel semantics of this module)
+	tm := time.NewTimer(0)
+	<-tm.C
+	verifObserve("timer.stop-after-fire", tm.Stop())
+	t2 := time.NewTimer(time.Hour)
+	verifObserve("timer.stop-armed", t2.Stop())
+	verifObserve("timer.stop-again", t2.Stop())
+	verifObserve("timer.reset-stopped", t2.Reset(time.Hour))
+	verifObserve("timer.reset-armed", t2.Reset(time.Hour))
+	t2.Stop()
+	// defers run LIFO and see updated variables through closures
+	order := ""
+	func() {
+		defer func() { order += "a" }()
+		defer func() { order += "b" }()
+		order += "c"
+	}()
+	verifObserve("defer.order", order)
+	// result passing through channels of structs / interfaces / errors
+	type msg struct {
+		err error
+		n   *Notification
+	}
+	mc := make(chan msg, 1)
+	mc <- msg{err: io.EOF, n: &Notification{Code: 6, Data: []byte{1, 2}}}
+	got := <-mc
+	verifObserve("chan.err-is-eof", got.err == io.EOF)
+	verifObserve("chan.notif", got.n.Data)
+	var ne *notificationError
+	wrapped := fmt.Errorf("outer: %w", fmt.Errorf("inner: %w", newNotificationError(got.n, false)))
+	verifObserve("errors.as-through-two-wraps", errors.As(wrapped, &ne) && ne.notification == got.n)
+	verifObserve("errors.as-miss", errors.As(fmt.Errorf("x: %v", io.EOF), &ne))
+	joined := errors.Join(nil, io.EOF, nil, wrapped)
+	verifObserve("errors.join-as", errors.As(joined, &ne))
+	verifObserve("errors.join-nil", errors.Join(nil, nil) == nil)
 }
